@@ -65,7 +65,10 @@ def _task(kv):
     s0 = I.steps
     rec = {'root': key, 'variant': variant, 'incomplete': None, 'contracts': [], 'exits': 0}
     try:
-        st, args, res = I.run_root(key, variant)
+        if variant == 'internal':
+            st, args, res = I.run_internal(key)
+        else:
+            st, args, res = I.run_root(key, variant)
         rec['exits'] = len(res)
         rec['contracts'] = run_contracts(I, key, args, res)
         rec['extra'] = I.spec.root_extra(I, key, args, res)
@@ -102,6 +105,7 @@ def analyze(facts_path, out_path, jobs=None, only=''):
     roots = [k for k in spec.root_keys() if only in k]
     roots.sort(key=_weight)
     roots = [(k, v) for k in roots for v in spec.root_variants(k)]
+    roots += [(k, 'internal') for k in spec.internal_roots() if only in k]
     jobs = jobs or max(1, min(15, (os.cpu_count() or 2) - 1))
     sys.setrecursionlimit(20000)
     results = []
